@@ -169,6 +169,14 @@ class W:
                 coll -= self._form(lists[0], allow_set=True)
             elif meth == "ixor":
                 coll ^= self._form(lists[0], allow_set=len(lists[0]) == len(set(map(id, lists[0]))))
+            if meth in ("ior", "iand", "isub", "ixor") and self._nform % 2:
+                # `owner.field OP= x` written against the attribute also assigns the result back to it
+                o, kind = self.obj[p], self.kind[p]
+                for fname, kinds in FIELDS[kind].items():
+                    if K[kinds[0]] in fk:
+                        setattr(o, fname, coll)
+                        if getattr(o, fname) is not coll:
+                            raise AssertionError("in-place operator through the attribute rebound the collection")
             return [0]
         if 4 <= c <= 13:
             ir = O[it[1]]
@@ -179,7 +187,9 @@ class W:
                 ml.insert(it[2], O[it[3]])
             elif c == 6:
                 if it[-1] == "iadd":
-                    ml += self._form([O[x] for x in it[2]])
+                    ir.modules += self._form([O[x] for x in it[2]])          # through the attribute: the result is assigned back
+                    if ir.modules is not ml:
+                        raise AssertionError("+= through the attribute rebound ir.modules")
                 else:
                     ml.extend(self._form([O[x] for x in it[2]]))
             elif c == 7:
